@@ -28,6 +28,8 @@ RULE = (
 )
 ASSUMPTIONS = ["ranges: [-2**(n-1), 2**(n-1)-1], [0, 2**n-1], +-(2 - 2**-m) * 2**emax with (m, emax) = (10, 15), (23, 127), (52, 1023)"]
 BUDGET = {"quick": 1200, "thorough": 24000}
+# coverage-guided twins (thorough tier): part name -> executions per shard; see core.cover
+COVER = {"random": 4000, "strings": 2000}
 
 ROOT = "ns"
 
